@@ -699,6 +699,45 @@ def check_debugger_histories_and_schedules(rec, rng):
             rec.violation("C20/EVAL-GATE-BYPASS:trusted-host", f"a debugger that was never configured to trust {host!r} serves it (eval ran: {bool(spy2.calls)}, console: {stc}) because another instance's list was extended",
                           {"part": "two-debuggers", "host": host}, monitor="spy-frame")
             break
+    # ---- history: the list of trusted hosts is edited in place after the debugger has answered requests (an operator
+    # tightening the list of a running development server): the next request is judged by the list as it is now
+    for edit in ("remove", "clear", "slice", "append"):
+        dbg = DebuggedApplication(inner, evalex=True, pin_security=False)
+        dbg.trusted_hosts = ["127.0.0.1", "localhost", ".dev.example"]
+        spy3 = SpyFrame()
+        dbg.frames[12345] = spy3
+        for h_ in ("127.0.0.1", "localhost", "a.dev.example", "other.example"):
+            request(dbg, spy3, h_, None)
+        if edit == "remove":
+            dbg.trusted_hosts.remove("127.0.0.1")
+            now_out, now_in = ["127.0.0.1"], ["localhost", "a.dev.example"]
+        elif edit == "clear":
+            dbg.trusted_hosts.clear()
+            now_out, now_in = ["127.0.0.1", "localhost", "a.dev.example"], []
+        elif edit == "slice":
+            dbg.trusted_hosts[:] = ["localhost"]
+            now_out, now_in = ["127.0.0.1", "a.dev.example"], ["localhost"]
+        else:
+            dbg.trusted_hosts.append("other.example")
+            now_out, now_in = ["evil.example"], ["other.example", "localhost"]
+        rec.case()
+        rec.nontrivial(("trusted-list-edited-in-place", edit))
+        rec.observe("trusted_lists_edited_after_requests")
+        for h_ in now_out + now_in:
+            spy3.calls.clear()
+            request(dbg, spy3, h_, None)
+            envc = create_environ("/console")
+            envc["HTTP_HOST"] = h_
+            itc, stc, hdc = run_wsgi_app(dbg, envc)
+            bodyc = b"".join(itc)
+            served = bool(spy3.calls) or (stc.startswith("200") and b"console" in bodyc.lower() and bodyc != b"inner")
+            if served and h_ in now_out:
+                rec.violation("C20/EVAL-GATE-BYPASS:trusted-host", f"after trusted_hosts was edited in place ({edit}) Host {h_!r}, no longer listed, is still served (eval ran: {bool(spy3.calls)}, console: {stc})",
+                              {"part": "trusted-list-edited-in-place", "edit": edit, "host": h_}, monitor="spy-frame")
+                break
+            if not spy3.calls and h_ in now_in:
+                rec.violation("C20/eval-not-run-although-gate-open", f"after trusted_hosts was edited in place ({edit}) Host {h_!r}, listed now, is refused", {"part": "trusted-list-edited-in-place", "edit": edit, "host": h_}, monitor="spy-frame")
+                break
     # ---- a forking server: every request is handled in a child process; failed PIN attempts still add up
     import os as _os
 
